@@ -67,7 +67,6 @@ package config
 // Path is its decoding (never encoded twice); the query goes through the parameter remover
 //@ func (*URLRewriter).Rewrite
 //@   props C15
-//@   requires value != nil
 //@   modifies url.URL.Scheme, url.URL.Path, url.URL.RawPath, url.URL.RawQuery, map(string,[]string)
 //@   ensures forall u *url.URL :: u != value ==> u.Scheme == old(u.Scheme) && u.Path == old(u.Path) && u.RawPath == old(u.RawPath) && u.RawQuery == old(u.RawQuery)
 //@   ensures len(old(r.Scheme)) != 0 ==> value.Scheme == old(r.Scheme)
@@ -82,7 +81,6 @@ package config
 // the request URL itself is not touched
 //@ func (*Backend).CreateURL
 //@   props C15
-//@   requires value != nil
 //@   ensures ret0 != nil && ret0 != value && ret0.Host == b.Host
 //@   ensures *value == old(*value)
 //@   ensures b.URLRewriter == nil ==> ret0.Scheme == value.Scheme && ret0.Path == value.Path && ret0.RawPath == value.RawPath && ret0.RawQuery == value.RawQuery
